@@ -144,6 +144,7 @@ func c13Random(run *mon.Run, rng *mon.Rand, steps int, sample bool) {
 		return
 	}
 	w.m.mustHaveHist[w.e.L2.Ctx.BlockHeight()] = true
+	w.specBlocks, w.e.L2.Speculate = rng.Bool(), rng.Bool()
 	feat := map[string]bool{}
 	addedThisBlock := map[int]bool{}
 	removedEarlier := map[int]bool{}
